@@ -107,6 +107,12 @@ def replyApplied (strict : Bool) (s : ClientSt) (doPurge : Bool) (init : List Ch
     | .ok c2 => { s with cache := c2, deferring := false, deferred := [] }
     | .error _ => { s with cache := c1, deferring := false, deferred := [], failed := true }
 
+/-- the guard of `Monitor()` (as repaired, D72): the cache holds one copy of a
+    table, so a table that one of the client's monitors covers cannot be
+    monitored again; `existing` are the table sets of the monitors the client has -/
+def monitorAccepted (existing : List (List String)) (S : List String) : Bool :=
+  existing.all fun S' => S'.all fun t => !S.contains t
+
 /-- the pinned `Monitor()`: nothing is done before the request is sent, so an
     additional monitor does not hold notifications back -/
 def monitorStartPinned (s : ClientSt) : ClientSt := s
